@@ -59,6 +59,11 @@ func SortReader(ctx context.Context, spillTarget int, typ slicetype.Type, r slic
 			break
 		}
 		bytesPerRow := size / n
+		if bytesPerRow < 1 {
+			// A run can encode to fewer bytes than it has rows (e.g., a
+			// column codec that compresses well).
+			bytesPerRow = 1
+		}
 		targetRows := spillTarget / bytesPerRow
 		if targetRows < sliceio.SpillBatchSize {
 			targetRows = sliceio.SpillBatchSize
